@@ -312,13 +312,21 @@ if baseline is not None:
                     extra_hdrs.append(rel)
             else:
                 # one pointer parameter, the first, of a PDU type of a known format; the rest integers
-                m0 = re.match(r'^(const\s+)?Avtp_(\w+)_t\s*(const\s*)?\*\s*(const\s+)?\w*$', params[0]) if params else None
-                rest = params[1:]
+                pdu_re = r'^(const\s+)?Avtp_(\w+)_t\s*(const\s*)?\*\s*(const\s+)?\w*$'
+                m0 = re.match(pdu_re, params[0]) if params else None
+                m1 = re.match(pdu_re, params[1]) if len(params) > 1 else None
+                if m1 and m1.group(2) not in [f['name'] for f in formats]:
+                    m1 = None
+                rest = params[2:] if m1 else params[1:]
                 rest_ok = all('*' not in a and '[' not in a and ((a.replace('const', ' ').split() or ['int'])[0] in INT_TYPES or a.split()[0].endswith('_t')) for a in rest)
-                if m0 and m0.group(2) in [f['name'] for f in formats] and rest_ok and len(rest) <= 3 and 'struct' not in args:
+                if m0 and m0.group(2) in [f['name'] for f in formats] and rest_ok and len(rest) <= (2 if m1 else 3) and 'struct' not in args:
                     k = len(extrap_rows)
-                    call = '%s(%s)' % (name, ', '.join(['(%sAvtp_%s_t *)p' % ('const ' if m0.group(1) else '', m0.group(2))] +
-                                                      ['(%s)%s' % (a.rsplit(' ', 1)[0] if ' ' in a else a, 'bcd'[i]) for i, a in enumerate(rest)]))
+                    ptrs = ['(%sAvtp_%s_t *)p' % ('const ' if m0.group(1) else '', m0.group(2))]
+                    ints = 'bcd'
+                    if m1:
+                        ptrs.append('(%sAvtp_%s_t *)(uintptr_t)b' % ('const ' if m1.group(1) else '', m1.group(2)))
+                        ints = 'cd'
+                    call = '%s(%s)' % (name, ', '.join(ptrs + ['(%s)%s' % (a.rsplit(' ', 1)[0] if ' ' in a else a, ints[i]) for i, a in enumerate(rest)]))
                     if retptr and 'char' in ret:
                         body = ('const char *r_ = (const char *)%s; uint64_t h_ = 1469598103934665603ULL; int i_; if (!r_) return 0; '
                                 'for (i_ = 0; i_ < 256 && r_[i_]; i_++) h_ = (h_ ^ (unsigned char)r_[i_]) * 1099511628211ULL; return h_;' % call)
@@ -327,7 +335,7 @@ if baseline is not None:
                     else:
                         body = ('%s; return 0;' % call) if ret.split()[-1] == 'void' else 'return (uint64_t)%s;' % call
                     extra_code.append('static uint64_t ep_%d(void *p, uint64_t b, uint64_t c, uint64_t d) { (void)b; (void)c; (void)d; %s }' % (k, body))
-                    extrap_rows.append((name, 'ep_%d' % k, len(params), m0.group(2), 1 if m0.group(1) else 0))
+                    extrap_rows.append((name, 'ep_%d' % k, len(params), m0.group(2), 1 if m0.group(1) else 0, ('"%s"' % m1.group(2)) if m1 else 'NULL', 1 if (m1 and m1.group(1)) else 0))
                     if rel not in extra_hdrs:
                         extra_hdrs.append(rel)
                 else:
@@ -343,8 +351,8 @@ ec += ['  {"%s", %s, %d},' % r for r in extra_rows]
 ec.append('  {NULL, NULL, 0}\n};')
 ec.append('const unsigned bind_nextras = %d;' % len(extra_rows))
 ec.append('const BindExtraP bind_extras_p[] = {')
-ec += ['  {"%s", %s, %d, "%s", %d},' % r for r in extrap_rows]
-ec.append('  {NULL, NULL, 0, NULL, 0}\n};')
+ec += ['  {"%s", %s, %d, "%s", %d, %s, %d},' % r for r in extrap_rows]
+ec.append('  {NULL, NULL, 0, NULL, 0, NULL, 0}\n};')
 ec.append('const unsigned bind_nextras_p = %d;' % len(extrap_rows))
 ec.append('const char *const bind_new_uncallable[] = {%s NULL};' % ''.join('"%s", ' % n for n in new_uncallable))
 path = os.path.join(out, 'bind_extra.c')
